@@ -11,6 +11,7 @@ import (
 	"fmt"
 	"math/rand"
 	"os"
+	"reflect"
 	"strconv"
 	"sync"
 	"time"
@@ -181,7 +182,25 @@ func RunActor(f func()) {
 func Symbolic() bool { return false }
 
 // SameObject reports whether two pointers/slices/maps may refer to the same memory (intrinsic).
-func SameObject(a, b any) bool { return false }
+func SameObject(a, b any) bool {
+	pa, pb := ptrOf(a), ptrOf(b)
+	return pa != 0 && pa == pb
+}
+
+func ptrOf(x any) uintptr {
+	if x == nil {
+		return 0
+	}
+	v := reflect.ValueOf(x)
+	switch v.Kind() {
+	case reflect.Ptr, reflect.Map, reflect.Slice, reflect.Chan, reflect.UnsafePointer:
+		if v.IsNil() {
+			return 0
+		}
+		return v.Pointer()
+	}
+	return 0
+}
 
 // TimeAt returns the instant ns nanoseconds after the Unix epoch (intrinsic: the engine models time.Time as that count).
 func TimeAt(ns int64) time.Time { return time.Unix(0, ns).UTC() }
